@@ -12,6 +12,9 @@ case kinds
   script      scripted SSL engine + scripted wrapped transport (async), lines in the model's own syntax
   syncscript  scripted SSL socket for the blocking transport (`wrap_socket` of a harness context)
   client      the default context a client constructor builds (ssl=True), and a truncated session through it
+  closerace   a live TLS session (asynchronous transport) where one task waits in recv()/recv_into(), ANOTHER task calls aclose(),
+              and then the peer's stream is cut (at once / inside a record in flight / at an offset of the peer's close_notify
+              answer / not at all) — case format and lines in vlib/c09_race.  No model run (oracle only).
 
 real lines (cut)   hs ok|exc:<Class> ; r data <n> | r eof | r exc:<Class> | r late-data <n> (first terminal result, then two more calls) ;
                    plain <hex> ; close … ; inner-closed <0|1> ; peer … ; marks …
@@ -72,12 +75,16 @@ RULE = (
     "cut cases: every byte offset of the peer->reader ciphertext stream of the chosen sessions (quick: 2 sessions async, "
     "structured sample for the blocking transport; thorough: all role x version shapes) x standard_compatible x recv/recv_into; "
     "non-trivial = the cut fell before the end of the stream, the key is the offset class (handshake / data / close_notify x "
-    "between / inside records) x mode x transport; scripted cases: every class of the generated alphabet x pattern x mode x method"
+    "between / inside records) x mode x transport; scripted cases: every class of the generated alphabet x pattern x mode x method; "
+    "close race cases (one task waiting in recv/recv_into, another calling aclose(), then the cut; oracle only, no model run): "
+    "every offset of the peer's close_notify answer x recv/recv_into x role x TLS version, plus cuts at once / inside records in "
+    "flight / none, reader parked or calling late, both modes, silent peer; the key is order x end-of-stream class x mode"
 )
 
 _aux: dict[str, Any] = {}
 _cache: dict[str, tuple[list[str], dict]] = {}
-_stats: dict[str, Any] = {"laws": [], "trace_problems": [], "ignore_eof": {}, "classes": {}, "lens_mismatch": 0, "outside_alphabet": 0}
+_stats: dict[str, Any] = {"laws": [], "trace_problems": [], "ignore_eof": {}, "classes": {}, "lens_mismatch": 0, "outside_alphabet": 0,
+                          "race": {}, "race_first": {}}
 
 
 def translate() -> None:
@@ -105,6 +112,9 @@ def _run_once(case: dict) -> tuple[list[str], dict]:
     if k == "client":
         from vlib import c09_client as c9
         return c9.run_client(case)
+    if k == "closerace":
+        from vlib import c09_race as x9
+        return x9.run_race(case)
     raise core.InfraError(f"unknown case kind {k}")
 
 
@@ -201,6 +211,125 @@ def oracle(case: dict, real: list[str]) -> str | None:
     if k == "client":
         from vlib import c09_client as c9
         return c9.oracle(case, real)
+    if k == "closerace":
+        return _oracle_race(case, real)
+    return None
+
+
+def _race_marks(real: list[str]) -> dict[str, str]:
+    ln = _field(real, "marks") or ""
+    return dict(tok.split("=", 1) for tok in ln.split() if "=" in tok)
+
+
+def _race_class(case: dict, real: list[str]) -> str:
+    """where the peer's stream ended: how much of its close_notify was delivered (harness-side offsets), and, when none of it
+    was, whether the end fell inside a record"""
+    mk = _race_marks(real)
+    cn = mk.get("cn", "none")
+    if cn != "none":
+        return "cn-" + cn
+    if case.get("release") == "never":
+        return "no-cut(silent peer)"
+    try:
+        d = int(mk.get("delivered", "0"))
+        ends = {int(mk["hs_end"])} | {int(x) for x in mk.get("rec_ends", "-").split(",") if x != "-"}
+    except (KeyError, ValueError):
+        return "cn-none"
+    return "cn-none/" + ("between" if d in ends else "inside")
+
+
+def _oracle_race(case: dict, real: list[str]) -> str | None:
+    """Judged from what the property states only.  Let `complete` = every byte of the peer's close_notify record was delivered
+    by the wrapped transport before its EOF (harness-side count).
+      standard-compatible, not complete : no receive call may report end-of-stream — neither the one that was waiting when
+                                          aclose() began nor any later one (every terminal result is an exception; a call
+                                          aborted because aclose() closed the wrapped transport under it raises OSError:
+                                          an error all the same);
+      standard-compatible, complete     : never the truncation error (the stream was NOT truncated); a call may still have been
+                                          aborted by the local close (non-TLS OSError), but the call made after aclose()
+                                          returned reports end-of-stream — judged only when no record was in flight when
+                                          aclose() began (else the closing handshake may meet application data, OpenSSL fails
+                                          the session and every call raises: an error is never excluded by the property);
+      mode off                          : an abrupt end is an end-of-stream: never the truncation error;
+      data                              : whatever was delivered is a prefix of the plaintext of the complete records before
+                                          the end of the stream (records in flight when aclose() began may be discarded);
+      close                             : aclose() returns, the wrapped transport is closed, and in standard-compatible mode
+                                          the bytes handed over end with the alert record and an independent peer reads a
+                                          close_notify from them."""
+    sc = bool(case.get("sc", True))
+    recs = list(case["recs"])
+    cls = _race_class(case, real)
+    where = (f"close race {case['role']} TLS{case['tls']} {case.get('order', 'parked')} {case.get('method', 'recv')} sc={sc} "
+             f"end of the peer's stream: {cls}")
+    if _field(real, "hs") != "ok":
+        return f"{where}: handshake failed ({_field(real, 'hs')})"
+    mk = _race_marks(real)
+    m = e9.baseline(case["role"], case["tls"], recs, False)
+    try:
+        delivered = int(mk["delivered"])
+        if int(mk["hs_end"]) != m["hs_end"] or [int(x) for x in mk["rec_ends"].split(",") if x != "-"] != m["rec_ends"]:
+            return f"unexpected failure: the session's record offsets differ from the reference session ({mk} vs {m['rec_ends']})"
+    except (KeyError, ValueError):
+        return f"unexpected failure: no marks line ({_field(real, 'marks')})"
+    plain = _field(real, "plain")
+    if plain is None:
+        return f"{where}: no plaintext line"
+    exp = e9.expected_plain(m, recs, delivered).hex()
+    if not exp.startswith("" if plain == "-" else plain):
+        return f"{where}: delivered plaintext is not a prefix of the complete records before the end of the stream"
+    _, term = _terminal([ln for ln in real if not ln.startswith("r closer-not-done")])
+    if len(term) < 3:
+        return f"{where}: fewer than three terminal results observed: {term}"
+    if any(t.startswith("late-data") for t in term):
+        return f"{where}: data delivered after an end-of-stream / error result: {term}"
+    ragged = [i for i, t in enumerate(term) if t.startswith("exc:SSLEOFError") or t.endswith("/ragged")]
+    complete = mk.get("cn") == "complete"
+    if sc and not complete:
+        bad = [i for i, t in enumerate(term) if not t.startswith("exc:")]
+        if bad:
+            return (f"{where}: the peer's stream ended without a complete close_notify while aclose() was in progress, "
+                    f"standard_compatible=True, but receive call #{bad[0] + 1} reports {term[bad[0]]!r} (results: {term})")
+    elif sc:
+        # records still in flight when aclose() began: whether the reader's read() or the closing handshake's unwrap() meets
+        # them is a race inside the transport; OpenSSL fails the session when unwrap() does ("application data after
+        # close notify") and every later call raises — an error is never excluded by the property, so nothing is demanded.
+        # Quiet connection (everything the peer had sent was read before aclose() began): the stream was NOT truncated.
+        in_flight = int(mk.get("gate", "0")) < (m["rec_ends"][-1] if m["rec_ends"] else m["hs_end"])
+        if not in_flight:
+            if ragged:
+                return (f"{where}: the peer's close_notify was delivered completely but receive call #{ragged[0] + 1} "
+                        f"reports a truncation ({term})")
+            if term[2] != "eof":
+                return f"{where}: complete close_notify, aclose() returned, but the next receive call reports {term[2]!r} ({term})"
+            bad = [t for t in term if t != "eof" and t.startswith("exc:SSL")]
+            if bad:
+                return f"{where}: complete close_notify but a receive call fails with a TLS error ({term})"
+    else:
+        if ragged:
+            return f"{where}: standard_compatible=False: an abrupt end must be an end-of-stream, got {term}"
+    # the close itself
+    c = next((ln for ln in real if ln.startswith("close ") and not ln.startswith(("close-", "closing"))), None)
+    if c is None:
+        return f"{where}: aclose() never returned"
+    if c != "close ok":
+        return f"{where}: {c}"
+    if _field(real, "inner-closed") != "1":
+        return f"{where}: the wrapped transport is not closed after aclose()"
+    if _field(real, "second") != "ok":
+        return f"{where}: second aclose(): {_field(real, 'second')}"
+    if sc:
+        em = _field(real, "close-emitted") or "-"
+        if em == "-":
+            return f"{where}: nothing was handed to the wrapped transport on close (no close_notify alert)"
+        if "ragged-tail" in em:
+            return f"{where}: the bytes emitted on close do not end at a record boundary ({em})"
+        ty, ln = em.split()[-1].split(":")
+        if case["tls"] == "1.2" and ty != "21":
+            return f"{where}: the last record emitted on close is not an alert record (content type {ty})"
+        if case["tls"] == "1.3" and not (ty == "23" and int(ln) <= 5 + 2 + 1 + 16 + 8):
+            return f"{where}: the last record emitted on close is not a TLS 1.3 alert-sized record ({em})"
+        if "close_notify" not in (_field(real, "peer") or "").split(","):
+            return f"{where}: the independent peer did not get a clean close_notify (peer saw {_field(real, 'peer')})"
     return None
 
 
@@ -468,6 +597,14 @@ def nontrivial(case: dict, real: list[str]) -> str | None:
         return "syncscript"
     if k == "client":
         return "client/" + case.get("which", "")
+    if k == "closerace":
+        c = _race_class(case, real)
+        key = f"closerace/{case.get('order', 'parked')}/{c}/sc={int(bool(case.get('sc', True)))}"
+        _stats["race"][key] = _stats["race"].get(key, 0) + 1
+        _, term = _terminal(real)
+        if term:
+            _stats["race_first"].setdefault(c.split("/")[0] + f"/sc={int(bool(case.get('sc', True)))}", set()).add(term[0])
+        return key
     return None
 
 
@@ -485,6 +622,10 @@ def shrink(case: dict):
             m = e9.baseline(case["role"], case["tls"], recs, bool(case.get("notify", True)))
             if len(recs) > 1 and case["cut"] <= m["rec_ends"][-2]:
                 yield {**case, "recs": recs[:-1]}
+    elif case["kind"] == "closerace":
+        for k, v in (("bufsize", 4096), ("max_frag", 4096), ("frag", 0), ("delay", 0), ("gap", 1), ("hold_extra", 0)):
+            if case.get(k, v) != v:
+                yield {**case, k: v}
     elif case["kind"] == "script":
         lines = list(case["lines"])
         idx = [i for i, ln in enumerate(lines) if ln.startswith("op ")]
@@ -504,6 +645,9 @@ def known_key(case: dict, real: list[str], why: str) -> str:
         return f"kind=cut,tr={case.get('tr', 'async')},class={e9.classify(m, case.get('cut')).split('/')[0]},sc={int(bool(case.get('sc', True)))},method={case.get('method', 'recv')}"
     if k == "close":
         return f"kind=close,tr={case.get('tr', 'async')},peer={case.get('peer')},sc={int(bool(case.get('sc', True)))}"
+    if k == "closerace":
+        return (f"kind=closerace,order={case.get('order', 'parked')},end={_race_class(case, real).split('/')[0]},"
+                f"sc={int(bool(case.get('sc', True)))},method={case.get('method', 'recv')}")
     return f"kind={k},why={why[:40].replace(' ', '_')}"
 
 
@@ -724,6 +868,78 @@ def cut_cases(rng, tier: str, boost: int) -> list[dict]:
     return out
 
 
+def _race_case(role: str, tls: str, recs: list[int], rng, **kw) -> dict:
+    c = {"kind": "closerace", "role": role, "tls": tls, "recs": list(recs), "sc": True,
+         "method": rng.choice(("recv", "recv_into")), "order": "parked", "hold": len(recs), "hold_extra": 0,
+         "cut_in": "none", "cut_rec": 0, "cut_k": 0, "reply": True, "release": "cn-out",
+         "delay": rng.choice((0, 0, 1, 2, 3)), "gap": rng.choice((0, 1, 1, 2, 3)), "abort": "oserror",
+         "bufsize": rng.choices((1, 7, 64, 4096, 65536), weights=(1, 2, 3, 8, 4))[0],
+         "frag": rng.randrange(1 << 30), "max_frag": rng.choices((1, 5, 64, 4096), weights=(1, 2, 5, 12))[0],
+         "shutdown_timeout": 5}
+    c.update(kw)
+    return c
+
+
+def race_cases(rng, tier: str, boost: int) -> list[dict]:
+    """one task waits in recv()/recv_into(), another one calls aclose(), then the peer's stream is cut (vlib/c09_race)"""
+    out: list[dict] = []
+    thorough = tier != "quick"
+    shapes = [("client", "1.3"), ("server", "1.2"), ("client", "1.2"), ("server", "1.3")]
+    for role, tls in shapes:
+        recs = [5, 17]
+        m = e9.baseline(role, tls, recs, True)
+        cnlen = m["cn_end"] - m["cn_start"]
+        orders = ("parked", "late")
+        # (1) quiet connection (everything the peer sent has been read), the reader waits, aclose(), then EVERY offset of the
+        #     peer's close_notify answer (0 = dropped just before it, cnlen = complete) x recv / recv_into
+        for method in ("recv", "recv_into"):
+            for k in range(0, cnlen + 1):
+                for order in (orders if thorough else ("parked",)):
+                    for rep_ in range(3 if thorough else 1):
+                        out.append(_race_case(role, tls, recs, rng, method=method, order=order, cut_in="cn", cut_k=k))
+            ks = list(range(0, cnlen + 1))
+            rng.shuffle(ks)
+            if not thorough:
+                for k in sorted(ks[:5] + [cnlen]):
+                    out.append(_race_case(role, tls, recs, rng, method=method, order="late", cut_in="cn", cut_k=k))
+            for order in orders:
+                # the peer drops the connection at once / without answering / answers completely
+                out.append(_race_case(role, tls, recs, rng, method=method, order=order, cut_in="gate"))
+                out.append(_race_case(role, tls, recs, rng, method=method, order=order, cut_in="none", reply=False))
+                for _ in range(2 * boost if not thorough else 8):
+                    out.append(_race_case(role, tls, recs, rng, method=method, order=order, cut_in="none"))
+        # (2) records still in flight when aclose() begins (gate after the handshake / after the first record / inside one)
+        layouts = [(recs, 0, 0), (recs, 1, 0), (recs, 1, 3), (recs, 0, 7), ([5, 17, 9], 1, 0)]
+        for rs, hold, extra in layouts:
+            mm = e9.baseline(role, tls, rs, True)
+            rl = [b - a for a, b in zip([mm["hs_end"]] + mm["rec_ends"][:-1], mm["rec_ends"])]
+            cuts: list[dict] = [{"cut_in": "gate"}, {"cut_in": "none"}, {"cut_in": "none", "reply": False}, {"cut_in": "cn", "cut_k": 0}]
+            for i in range(hold, len(rs)):
+                cuts += [{"cut_in": "rec", "cut_rec": i, "cut_k": kk} for kk in sorted({extra + 1 if i == hold else 1, 5, rl[i] - 1, rl[i]})
+                         if kk > (extra if i == hold else 0)]
+            cuts += [{"cut_in": "cn", "cut_k": kk} for kk in ((1, 5, cnlen - 1) if not thorough else range(1, cnlen))]
+            for cu in cuts:
+                for order in orders:
+                    for _ in range(1 if not thorough else 3):
+                        if not thorough and rng.random() < 0.6:
+                            continue
+                        out.append(_race_case(role, tls, rs, rng, order=order, hold=hold, hold_extra=extra, **cu))
+        # (3) mode off: aclose() closes the wrapped transport at once (the waiting call is aborted by the local close)
+        for order in orders:
+            for method in ("recv", "recv_into"):
+                for abort in ("oserror", "eof"):
+                    for hold in ((2,) if not thorough else (0, 1, 2)):
+                        out.append(_race_case(role, tls, recs, rng, sc=False, order=order, method=method, abort=abort, hold=hold,
+                                              cut_in=rng.choice(("gate", "none", "cn")), cut_k=rng.randrange(0, cnlen)))
+        # (4) silent peer, the gate stays shut: the shutdown timeout closes the wrapped transport under the waiting reader
+        for order in orders:
+            for abort in ("oserror", "eof"):
+                for method in (("recv", "recv_into") if thorough else (rng.choice(("recv", "recv_into")),)):
+                    out.append(_race_case(role, tls, recs, rng, order=order, method=method, abort=abort, release="never",
+                                          hold=rng.choice((1, 2))))
+    return out
+
+
 def corpus() -> list[dict]:
     return []
 
@@ -741,6 +957,10 @@ def generate(rng, tier: str, boost: int):
     yield from small
     cuts = cut_cases(rng, tier, boost)
     rng.shuffle(cuts)
+    races = race_cases(rng, tier, boost)
+    rng.shuffle(races)
+    prefetch(races)
+    yield from races
     step = 1400
     for i in range(0, len(cuts), step):
         chunk = cuts[i:i + step]
@@ -755,6 +975,8 @@ def extra_coverage(stats) -> dict:
         "translator_problems": tr9._last_info.get("problems", []),
         "alphabet": tr9._last_info.get("classes", []),
         "ignore_eof_bit_behaviour (not judged: OP_IGNORE_UNEXPECTED_EOF set on the reader's context)": dict(sorted(_stats["ignore_eof"].items())),
+        "close_race_cases (no model run: oracle only)": dict(sorted(_stats["race"].items())),
+        "close_race_first_terminal_result": {k: sorted(v) for k, v in sorted(_stats["race_first"].items())},
         "exhaustive": "asynchronous transport: every byte offset of the listed sessions x both modes; scripted engines: every class "
                       "of the alphabet x pattern x mode x recv/recv_into",
     }
